@@ -394,3 +394,74 @@ func init() {
 		}
 	})
 }
+
+// ------------------------------------------------------------------ C12.R10
+// The v0 pool is walked by following Next() of an element that may have been removed in the meantime: the
+// recheck cursor steps to cursor.Next() right after removeTx(cursor), and the gossip routine holds an
+// element across removals. A removed element must therefore keep its forward pointer (only the backward
+// pointer is detached, for the garbage collector). If removal clears it, the recheck stops at the first
+// rejected transaction and every later rejected transaction stays in the pool.
+func init() {
+	register("C12", "R10", "K2+K3", "v0: an element removed from the pool keeps its forward pointer (the recheck cursor and the gossip routine step over removed elements with Next)", 4, func(c *Ctx) {
+		w := c.W
+		// (a) the reliance: in resCbRecheck the cursor is advanced with Next() after it may have been removed
+		if f := c.fn("mempool/v0", "CListMempool.resCbRecheck"); f != nil {
+			fk := funcKey(f)
+			rm := w.callsTo(f, "mempool/v0#CListMempool.removeTx")
+			n := 0
+			for _, r := range rm {
+				if w.expr(callArgs(r)[1]) != "mem.recheckCursor" {
+					continue
+				}
+				q := &pathQ{target: func(in ssa.Instruction) bool {
+					call, ok := in.(ssa.CallInstruction)
+					return ok && w.isCall(call, "libs/clist#CElement.Next") && w.expr(callRecv(call)) == "mem.recheckCursor"
+				}}
+				idx := 0
+				for i, in := range r.Block().Instrs {
+					if in == ssa.Instruction(r) {
+						idx = i + 1
+					}
+				}
+				if hit, _ := q.reach(r.Block(), idx); hit != nil {
+					n++
+				}
+			}
+			c.Check(n >= 1, fk+" :: the cursor is advanced with Next() after its element may have been removed", w.pos(f.Pos()), "removeTx(cursor) … cursor.Next()", "pattern not found (the rule's premise changed: re-confirm by reading)")
+		}
+		// (b) nothing in the v0 mempool clears or redirects an element's forward pointer
+		k := newKeyer()
+		control := 0
+		for _, f := range w.FuncsInPkg("mempool/v0") {
+			for _, call := range callInstrs(f) {
+				switch {
+				case w.isCall(call, "libs/clist#CElement.DetachPrev"):
+					control++
+				case w.isCall(call, "libs/clist#CElement.DetachNext"), w.isCall(call, "libs/clist#CElement.SetNext"):
+					c.Fail(k.key(f, "forward pointer of a pool element changed"), w.ipos(call), w.callStr(call)+": walkers standing on this element lose the rest of the pool")
+				}
+			}
+		}
+		c.Check(control >= 2, "mempool/v0 :: element detach calls seen (matcher control)", "-", ">= 2 DetachPrev", fmt.Sprintf("%d", control))
+		// (c) CList.Remove unlinks the element from its neighbours and marks it, without touching its own next
+		if f := c.fn("libs/clist", "CList.Remove"); f != nil {
+			fk := funcKey(f)
+			e := paramName(f, 1)
+			relinked := 0
+			for _, call := range callInstrs(f) {
+				if w.isCall(call, "libs/clist#CElement.SetNext") || w.isCall(call, "libs/clist#CElement.DetachNext") {
+					if w.expr(callRecv(call)) == e {
+						c.Fail(fk+" :: the removed element keeps its forward pointer", w.ipos(call), w.callStr(call))
+					} else {
+						relinked++
+					}
+				}
+			}
+			c.Check(relinked >= 1, fk+" :: predecessor is relinked past the removed element", w.pos(f.Pos()), "prev.SetNext(next)", "no SetNext on the predecessor")
+			c.Check(w.alwaysCalls(f, 0, "libs/clist#CElement.SetRemoved") || len(w.callsTo(f, "libs/clist#CElement.SetRemoved")) >= 1, fk+" :: the element is marked removed", w.pos(f.Pos()), "e.SetRemoved()", "not marked")
+		}
+		if f := c.fn("libs/clist", "CElement.SetRemoved"); f != nil {
+			c.Check(len(w.fieldStoresInRaw(f, "libs/clist", "CElement", "next")) == 0, funcKey(f)+" :: marking an element removed leaves its forward pointer", w.pos(f.Pos()), "no store to next", "next is overwritten when the element is marked removed")
+		}
+	})
+}
